@@ -173,8 +173,49 @@ class Pipe:
         return stmts
 
 
+def repeated_templates():
+    """the same `a~` expression evaluated several times: every evaluation starts a fresh enumeration,
+    whether the array is a literal, a captured constant, or built at run time"""
+    out = []
+    arrs = {"lit": ("array", [I(1), I(2), I(3)]), "empty": ("repeat", I(0), I(0)), "one": ("array", [I(7)])}
+    consumers = {
+        "collect": lambda it: ("post", "collect", it), "sum": lambda it: ("post", "sum", it), "product": lambda it: ("post", "product", it),
+        "bitand": lambda it: ("post", "bitand", it), "bitor": lambda it: ("post", "bitor", it),
+        "reduce": lambda it: ("reduce", it, I(100), ("fn", [("a", INT), ("c", INT)], INT, [("return", ("bin", "sub", V("a"), V("c")))])),
+        "map": lambda it: ("post", "collect", ("bin", "map", it, ("fn", [("e", INT)], INT, [("return", ("bin", "mul", V("e"), I(2)))]))),
+        "filter": lambda it: ("post", "collect", ("bin", "filter", it, ("fn", [("e", INT)], BOOL, [("return", ("bin", "gt", V("e"), I(1)))]))),
+        "tfilter": lambda it: ("post", "collect", ("tfilter", it, INT)),
+        "partition": lambda it: ("bin", "partition", it, ("fn", [("e", INT)], BOOL, [("return", ("bin", "gt", V("e"), I(1)))])),
+        "pull": lambda it: ("call", it, []),
+    }
+    for an, ae in arrs.items():
+        for cn, c in consumers.items():
+            rt = ANY
+            # (1) inside a function called three times
+            out.append([("fndecl", "f", [], rt, [("return", c(("post", "iter", ae)))]),
+                        ("tuple", [("call", V("f"), []), ("call", V("f"), []), ("call", V("f"), [])])])
+            # (2) a captured constant array
+            out.append([("set", "a", ae), ("fndecl", "g", [], rt, [("return", c(("post", "iter", V("a"))))]),
+                        ("tuple", [("call", V("g"), []), ("call", V("g"), [])])])
+            # (3) in a loop body, results appended to a log
+            out.append([("set", "log", ("mut", arr(ANY), ("array", []))), ("set", "k", ("mut", INT, I(0))),
+                        ("while", ("bin", "lt", D(V("k")), I(3)),
+                         ("block", [("assign", "add", V("log"), ("array", [c(("post", "iter", ae))])), ("assign", "add", V("k"), I(1))])),
+                        D(V("log"))])
+            # (4) in a for body nested in a for over the same literal
+            out.append([("set", "log", ("mut", arr(ANY), ("array", []))),
+                        ("for", "i", ("post", "iter", ae), ("block", [("for", "j", ("post", "iter", ae), ("block", [
+                            ("assign", "add", V("log"), ("array", [("tuple", [V("i"), V("j"), c(("post", "iter", ae))])]))]))])),
+                        D(V("log"))])
+    return out
+
+
 def run(res, tier, seed, broken_model):
     rnd = random.Random(seed)
+    reps = repeated_templates()
+    rrecs = P.run_programs(reps, broken_model=broken_model)
+    res.streams["repeated-evaluation"] = dict(programs=len(reps))
+    progprop.judge(res, rrecs, broken_model, label="repeated")
     n = 500 if tier == "quick" else 15000
     pipes, progs = [], []
     for _ in range(n):
@@ -203,4 +244,6 @@ def run(res, tier, seed, broken_model):
     res.rule = ("pipelines: element sequences of length 0..6 x {array-derived, user-written counter, user-written over a captured "
                 "cell} sources (user sources log every pull) x 0..3 lazy stages (@ f, ? p, ? int; callbacks log their argument) x "
                 "11 consumers ($], $+, $*, $&, $|, $&&, $||, $ init f, \\\\ p, for, manual pulls past the end); value and log are "
-                "compared with Spec and with an independent Python simulation of list semantics; non-trivial = distinct accepted pipeline")
+                "compared with Spec and with an independent Python simulation of list semantics; + 132 templates evaluating one `a~` "
+                "expression repeatedly (function called 3 times, captured constant array, loop body, nested for) under 11 consumers, "
+                "vs. Spec; non-trivial = distinct accepted pipeline")
